@@ -59,6 +59,9 @@ DivAgree(n, k) == LET d == DivImpl(n, k)  w == DivLens(n, k) IN
    /\ SumSeq(w) = n
 \* ---- silence: round(d * rate) zero samples, same band rule at the half-sample switch point
 SilenceOK(g, dn, dd, sr) == g >= 0 /\ StopOK(g, dn * sr, dd)
+\* when duration and product are exactly representable (dyadic duration) nothing is ambiguous: round() is Python's, half to even
+HalfEvenDiv(X, D) == LET q == X \div D  r == X % D IN IF 2 * r < D THEN q ELSE IF 2 * r > D THEN q + 1 ELSE IF q % 2 = 0 THEN q ELSE q + 1
+SilenceExactOK(g, dn, dd, sr) == g = HalfEvenDiv(dn * sr, dd)
 \* ---- concatenation / join / repetition on id sequences (bytes are id sequences here)
 RECURSIVE JoinSeq(_, _)
 JoinSeq(sep, rs) == IF rs = <<>> THEN <<>> ELSE IF Len(rs) = 1 THEN rs[1] ELSE rs[1] \o sep \o JoinSeq(sep, Tail(rs))
